@@ -996,6 +996,9 @@ class TermCanvas(Canvas):
         if lines == 0:
             lines = 1
 
+        if not self.scrollregion_start <= row <= self.scrollregion_end:
+            return  # outside the scrolling region: ignored
+
         while lines > 0:
             self.term.pop(self.scrollregion_end)
             self.term.insert(row, self.empty_line())
@@ -1014,6 +1017,9 @@ class TermCanvas(Canvas):
 
         if lines == 0:
             lines = 1
+
+        if not self.scrollregion_start <= row <= self.scrollregion_end:
+            return  # outside the scrolling region: ignored
 
         while lines > 0:
             self.term.pop(row)
